@@ -61,6 +61,31 @@ def work(plan):
             ob['order_keys'] = oname
             rec['obs'].append(ob)
     rec['n_eq'] = len(em0.parser.Endogenous)
+    if 'solve-compare' in plan.features:
+        # the SOLUTION as well: the same model really solved for two periods in every order, every series compared (the solver's own passes over the
+        # equation list - time-zero constants, decorative variables - run in text order, which is declaration order)
+        def solved(order):
+            em = emit(Z.build(plan, order=order), maxtime=2)
+            if em.err is not None or not em.text:
+                return 'error: %r' % (em.err,)
+            ts = em.model.EquationSolver.TimeSeries
+            return {v: list(ts[v]) for v in ts}
+        ref = solved(orders[0])
+        for order in orders[1:]:
+            got = solved(order)
+            bad = None
+            if isinstance(ref, str) or isinstance(got, str):
+                if type(ref) is not type(got):
+                    bad = 'canonical order: %s; permuted order: %s' % (ref if isinstance(ref, str) else 'solved', got if isinstance(got, str) else 'solved')
+            elif set(ref) != set(got):
+                bad = 'variables differ: %r' % (sorted(set(ref) ^ set(got))[:4],)
+            else:
+                diff = [(v, k, ref[v][k], got[v][k]) for v in ref for k in range(len(ref[v]))
+                        if len(got[v]) != len(ref[v]) or abs(ref[v][k] - got[v][k]) > 1e-5 * (1 + abs(ref[v][k]) + abs(got[v][k]))]
+                if diff:
+                    bad = 'series differ: %r' % (diff[:3],)
+            rec['obs'].append({'kind': 'solution-identical', 'what': 'solved for two periods: every series as in the canonical order', 'verdict': 'sat' if bad else 'unsat',
+                               'order': order, 'order_keys': order_keys(plan, order), 'structural': {'error': bad} if bad else None, 'solve': True})
     return rec
 
 
@@ -84,6 +109,17 @@ if set(A) != set(B):
     print('variable sets differ: only canonical', sorted(set(A) - set(B))[:6], 'only permuted', sorted(set(B) - set(A))[:6]); sys.exit(1)
 if dict(canon.parser.Lagged) != dict(perm.parser.Lagged) or canon.parser.InitialConditions != perm.parser.InitialConditions:
     print('lag / initial-condition sets differ'); sys.exit(1)
+if %(solve)r:
+    def solved(o):
+        em = emit(Z.build(plan, order=o), maxtime=2)
+        if em.err is not None or not em.text: return 'error: %%r' %% (em.err,)
+        ts = em.model.EquationSolver.TimeSeries
+        return {v: list(ts[v]) for v in ts}
+    a, b = solved(None), solved(order)
+    if isinstance(a, str) or isinstance(b, str):
+        print('canonical:', a if isinstance(a, str) else 'solved', '| permuted:', b if isinstance(b, str) else 'solved'); sys.exit(1 if type(a) is not type(b) else 0)
+    diff = [(v, k, a[v][k], b[v][k]) for v in a for k in range(len(a[v])) if v not in b or len(b[v]) != len(a[v]) or abs(a[v][k] - b[v][k]) > 1e-5 * (1 + abs(a[v][k]) + abs(b[v][k]))]
+    print('series that differ (variable, k, canonical, permuted):', diff[:6]); sys.exit(1 if diff else 0)
 cex = %(cex)r
 if cex is None:
     print('no numeric witness (structural difference expected but not found)'); sys.exit(0)
@@ -136,7 +172,7 @@ def run(tier, seed):
                 # identify the finding by the pair of declarations whose relative order changed and matters
                 key = finding_key(plan, ob)
                 chk.violation(key, 'topology %s, order %s: %s %s' % (rec['plan'], ob['order_keys'], ob['what'], ob.get('structural', '')),
-                              REPLAY % dict(plan=rec['plan'], order=ob['order'], cex=ob.get('cex'), side=ob.get('side', 'B'),
+                              REPLAY % dict(plan=rec['plan'], order=ob['order'], cex=ob.get('cex'), side=ob.get('side', 'B'), solve=bool(ob.get('solve')),
                                             var=ob.get('var'), params=rec.get('params', [])))
     chk.counters['permuted_builds'] = n_orders
     chk.exhaustive = True
